@@ -4,6 +4,7 @@ import (
 	"fmt"
 	"go/token"
 	"go/types"
+	"math"
 	"math/big"
 
 	"golang.org/x/tools/go/ssa"
@@ -286,6 +287,12 @@ func (e *Engine) binop(op token.Token, t types.Type, x, y value) value {
 			}
 		}
 		if b.Info()&types.IsFloat != 0 {
+			if isSymFloat(x) || isSymFloat(y) {
+				if b.Kind() != types.Float64 && b.Kind() != types.UntypedFloat {
+					unsup("symbolic float32 arithmetic")
+				}
+				return fpBinop(op, x, y)
+			}
 			xf, yf := x.(float64), y.(float64)
 			switch op {
 			case token.ADD:
@@ -337,6 +344,9 @@ func (e *Engine) unop(instr *ssa.UnOp, x value) value {
 		if f, ok := x.(float64); ok {
 			return -f
 		}
+		if f, ok := x.(floatS); ok {
+			return floatS{"(fp.neg " + f.s + ")"}
+		}
 		it, _ := intTypeOf(instr.Type())
 		return e.ctx.Wrap(it, SubX(IntC(0), x.(*Term)))
 	case token.MUL:
@@ -378,13 +388,23 @@ func (e *Engine) conv(tdst, tsrc types.Type, x value) value {
 		if f, ok := x.(float64); ok {
 			return e.ctx.Wrap(dt, BigC(big.NewInt(int64(f))))
 		}
+		if f, ok := x.(floatS); ok {
+			// Go truncates toward zero; the value is assumed representable (out of range is implementation-defined)
+			k := e.ctx.freshInt("f2i")
+			e.ctx.Side = append(e.ctx.Side, &Term{Sort: SBool, S: fmt.Sprintf("(= %s (to_int (fp.to_real (fp.roundToIntegral RTZ %s))))", k, f.s)})
+			return e.ctx.Wrap(dt, symInt(k, nil, nil))
+		}
 	}
 	ud, us := tdst.Underlying(), tsrc.Underlying()
 	if bd, ok := ud.(*types.Basic); ok && bd.Info()&types.IsFloat != 0 {
 		if _, ok := intTypeOf(tsrc); ok {
 			t := x.(*Term)
 			if !t.K {
-				unsup("float(symbolic int)")
+				if bd.Kind() != types.Float64 {
+					unsup("float32(symbolic int)")
+				}
+				// IEEE-754 binary64, round to nearest even - what the hardware conversion does
+				return floatS{"((_ to_fp 11 53) RNE (to_real " + t.SMT() + "))"}
 			}
 			f, _ := new(big.Float).SetInt(t.C).Float64()
 			return f
@@ -392,6 +412,12 @@ func (e *Engine) conv(tdst, tsrc types.Type, x value) value {
 		if f, ok := x.(float64); ok {
 			if bd.Kind() == types.Float32 {
 				return float64(float32(f))
+			}
+			return f
+		}
+		if f, ok := x.(floatS); ok {
+			if bd.Kind() == types.Float32 {
+				unsup("float32(symbolic float)")
 			}
 			return f
 		}
@@ -750,5 +776,51 @@ func (e *Engine) doCopy(args []value) value {
 		return IntC(int64(copy(dst, tmp)))
 	}
 	unsup("copy(%T, %T)", args[0], args[1])
+	return nil
+}
+
+// ---------- symbolic float64 (SMT FloatingPoint 11 53, round to nearest even) ----------
+
+type floatS struct{ s string }
+
+func isSymFloat(v value) bool { _, ok := v.(floatS); return ok }
+
+func fpTerm(v value) string {
+	switch x := v.(type) {
+	case floatS:
+		return x.s
+	case float64:
+		b := math.Float64bits(x)
+		return fmt.Sprintf("(fp #b%d #b%011b #x%013x)", b>>63, (b>>52)&0x7ff, b&((1<<52)-1))
+	}
+	unsup("float operand %T", v)
+	return ""
+}
+
+func fpBinop(op token.Token, x, y value) value {
+	a, b := fpTerm(x), fpTerm(y)
+	switch op {
+	case token.ADD:
+		return floatS{"(fp.add RNE " + a + " " + b + ")"}
+	case token.SUB:
+		return floatS{"(fp.sub RNE " + a + " " + b + ")"}
+	case token.MUL:
+		return floatS{"(fp.mul RNE " + a + " " + b + ")"}
+	case token.QUO:
+		return floatS{"(fp.div RNE " + a + " " + b + ")"}
+	case token.LSS:
+		return &Term{Sort: SBool, S: "(fp.lt " + a + " " + b + ")"}
+	case token.LEQ:
+		return &Term{Sort: SBool, S: "(fp.leq " + a + " " + b + ")"}
+	case token.GTR:
+		return &Term{Sort: SBool, S: "(fp.gt " + a + " " + b + ")"}
+	case token.GEQ:
+		return &Term{Sort: SBool, S: "(fp.geq " + a + " " + b + ")"}
+	case token.EQL:
+		return &Term{Sort: SBool, S: "(fp.eq " + a + " " + b + ")"}
+	case token.NEQ:
+		return &Term{Sort: SBool, S: "(not (fp.eq " + a + " " + b + "))"}
+	}
+	unsup("float binop %s", op)
 	return nil
 }
